@@ -285,6 +285,7 @@ func runC17(p *core.Prog, r *core.Report) {
 	})
 
 	// ------------------------------------------------------------------ R3
+	r.Guard("C17.R3", "reference-keys-raw", "validation looks up the reference field itself", func() { checkReferenceKeysRaw(p, r, "C17.R3") })
 	r.Guard("C17.R3", "bounded-work", "loops and recursion", func() {
 		cg := p.CallGraph(false)
 		reach := core.Reachable(cg, entries()...)
